@@ -90,15 +90,17 @@ def gen_lines(rng, with_comments):
     return out
 
 
-def write_lines(lines, line_form, final_nl):
+def write_lines(lines, line_form, final_nl, cfg=None):
+    """written with the delimiter strings and line prefixes of `cfg` (default: {% %} {{ }} {# #} with # / ##)"""
+    bs, be, vs, ve, cs, ce, lsp, lcp = cfg.d if cfg is not None else L.DELIMS["line"]
     parts = []
     for kind, ind, p in lines:
         if kind == "text":
-            parts.append(p)
+            parts.append(p.replace("{{", vs).replace("}}", ve))
         elif kind == "stmt":
-            parts.append(ind + ("# " + p if line_form else "{% " + p + " %}"))
+            parts.append(ind + (lsp + " " + p if line_form else bs + " " + p + " " + be))
         else:
-            parts.append(ind + ("## " + p if line_form else "{# " + p + " #}"))
+            parts.append(ind + (lcp + " " + p if line_form else cs + " " + p + " " + ce))
     return "\n".join(parts) + ("\n" if final_nl else "")
 
 
@@ -271,25 +273,30 @@ def run(ctx):
                 ctx.validated()
 
     # ---------------- (c) line statements, (d) line comments
-    lc = L.Cfg("line", True, True)
-    env = L.env_for(jinja2, lc)
+    # two delimiter families: the default one with # / ##, and one whose END strings do not start with an operator
+    # character (<? ?> <?= ?> <!-- --> with % / %%)
+    lcs = [L.Cfg("line", True, True), L.Cfg("phpline", True, True)]
     pairs = []
     for with_comments in (False, True):
         for _ in range(ctx.size(4000, 25000)):
             lines = gen_lines(ctx.rng, with_comments)
             # "not followed by blank lines": generator emits no empty text lines
             fin = ctx.rng.random() < 0.5
-            pairs.append((with_comments, write_lines(lines, False, fin), write_lines(lines, True, fin)))
-    mruns = L.model_runs(ctx, [(lc, p[1]) for p in pairs] + [(lc, p[2]) for p in pairs])
+            lc = lcs[0] if ctx.rng.random() < 0.6 else lcs[1]
+            if lc.name == "phpline":
+                lines = [(k_, i_, p_.replace("%", "pct").replace("<", "lt")) if k_ == "text" else (k_, i_, p_) for k_, i_, p_ in lines]
+            pairs.append((with_comments, write_lines(lines, False, fin, lc), write_lines(lines, True, fin, lc), lc))
+    mruns = L.model_runs(ctx, [(p[3], p[1]) for p in pairs] + [(p[3], p[2]) for p in pairs])
     n = len(pairs)
-    for i, (with_comments, a, b) in enumerate(pairs):
-        case = {"kind": "line-comment" if with_comments else "line-statement", "block_form": a, "line_form": b}
-        ctx.case(sample=case if len(a) > 40 else None, key=(case["kind"], a) if "{" in a else None)
+    for i, (with_comments, a, b, lc) in enumerate(pairs):
+        env = L.env_for(jinja2, lc)
+        case = {"kind": "line-comment" if with_comments else "line-statement", "block_form": a, "line_form": b, "delims": lc.name}
+        ctx.case(sample=case if len(a) > 40 else None, key=(case["kind"], a) if (lc.d[0] in a or lc.d[2] in a) else None)
         ctx.count(case["kind"])
         oa = safe(jinja2, lambda: env.from_string(a).render())
         ob = safe(jinja2, lambda: env.from_string(b).render())
         if oa != ob or not oa.startswith("D "):
-            if with_comments and "{#" in a:
+            if with_comments and lc.d[4] in a:
                 ctx.reject(case, "block form renders %r, line form %r" % (oa, ob), KNOWN_SIG)
             else:
                 ctx.reject(case, "block form renders %r, line form %r" % (oa, ob), "C13:line-statement:%r" % a)
@@ -428,7 +435,7 @@ def run_expr_delims(ctx, jinja2, settings):
     balancing stack decides where a tag ends, e.g. '}' as variable end), strings containing every set's
     delimiters, filters, attribute / item access; context values of several kinds; all routes sampled"""
     from markupsafe import Markup
-    names = ["default", "angle", "dollar", "asp", "linepct"]
+    names = ["default", "angle", "dollar", "asp", "linepct", "phpline"]
     datas = [dict(x="xs", m={"a": 1}, n=1, t=("p", "q")), dict(x=Markup("<b>"), m=_NS(), n=True, t=["p", "q"]),
              dict(x=L._S("sub"), m={"a": [1]}, n=1.0, t=iter(["p", "q"]))]
     for j in range(ctx.size(1000, 12000)):
@@ -561,7 +568,7 @@ def replay(ctx, data):
         if ob != ol:
             ctx.reject(case, "block form renders %r, line form %r" % (ob, ol), data.get("signature"))
     elif kind in ("line-statement", "line-comment"):
-        env = L.env_for(jinja2, L.Cfg("line", True, True))
+        env = L.env_for(jinja2, L.Cfg(case.get("delims", "line"), True, True))
         oa = safe(jinja2, lambda: env.from_string(case["block_form"]).render())
         ob = safe(jinja2, lambda: env.from_string(case["line_form"]).render())
         print("block form:", repr(case["block_form"]), "->", oa)
